@@ -283,6 +283,19 @@ def oracle_primitives(spec):
     lin = collinear(xyz)
     dof = 3 * n_at - (5 if lin else 6)
     info.update(n_atoms=n_at, n_prim=len(pic), dof=dof, linear=lin)
+    if not (np.all(np.isfinite(q)) and np.all(np.isfinite(B))):
+        i = int(np.argmax(~np.isfinite(q))) if not np.all(np.isfinite(q)) else int(np.argmax(~np.isfinite(B).all(axis=1)))
+        fails.append((f"AnyPIC|non-finite-primitive:{cls_key(spec)}",
+                      f"{spec['name']}: primitive {pic[i]!r} has a non-finite value / derivative (q = {q[i]})",
+                      rep(spec, kind="primitives")))
+        return fails, info
+    from autode.opt.coordinates.primitives import LinearAngleBase
+    if lin:
+        for i, pr in enumerate(pic):
+            if isinstance(pr, LinearAngleBase) and abs(q[i]) > 1e-8:
+                fails.append((f"AnyPIC|linear-bend-nonzero:{cls_key(spec)}",
+                              f"{spec['name']}: exactly linear molecule but {pr!r} = {q[i]:.3e}", rep(spec, kind="primitives")))
+                break
     T = rigid_basis(xyz)
     Bint = B - (B @ T) @ T.T
     sv = np.linalg.svd(Bint, compute_uv=False)
@@ -730,6 +743,96 @@ def oracle_dihedral_step(spec, bond, start_deg, dq):
     return fails
 
 
+def h2o2_geom(phi_deg):
+    phi = math.radians(phi_deg)
+    r_oo, r_oh, th = 1.45, 0.97, math.radians(100.0)
+    o1, o2 = np.zeros(3), np.array([r_oo, 0.0, 0.0])
+    h1 = o1 + r_oh * np.array([math.cos(th), math.sin(th), 0.0])
+    h2 = o2 + r_oh * np.array([-math.cos(th), math.sin(th) * math.cos(phi), math.sin(th) * math.sin(phi)])
+    return np.array([o1, o2, h1, h2])
+
+
+def torsion_targets(spec, bond, phis_deg):
+    """geometries of spec with the first torsion about `bond` set to each of phis_deg (by rigid rotation of one side)
+    -> (index of that torsion in the PIC of the FIRST geometry's species, list of coordinates)"""
+    from autode.opt.coordinates import CartesianCoordinates
+    from autode.opt.coordinates.primitives import PrimitiveDihedralAngle
+    if spec["name"] == "H2O2-model":
+        return None, [h2o2_geom(p) for p in phis_deg]
+    o, p = bond
+    adj = {i: set() for i in range(len(spec["symbols"]))}
+    for a, b in spec["bonds"]:
+        adj[a].add(b); adj[b].add(a)
+    xyz = np.array(spec["coords"])
+    m, pic, x, q, B = build(spec)
+    _, side = rotate_about_bond(xyz, adj, o, p, 0.0)
+    i0 = [i for i, pr in enumerate(pic) if isinstance(pr, PrimitiveDihedralAngle) and {pr.o, pr.p} == {o, p}
+          and ((pr.m in side) != (pr.n in side))][0]
+    out = []
+    for ph in phis_deg:
+        want = (math.radians(ph) + math.pi) % (2 * math.pi) - math.pi
+        for sg in (1, -1):
+            x2, _ = rotate_about_bond(xyz, adj, o, p, sg * (want - q[i0]))
+            d = pic[i0](CartesianCoordinates(x2)) - want
+            if abs((d + math.pi) % (2 * math.pi) - math.pi) < 1e-6:
+                break
+        out.append(x2)
+    return i0, out
+
+
+def oracle_step_sequence(spec, bond, phis_deg):
+    """consecutive internal steps on the SAME chain of DIC objects, each the exact internal displacement to an existing
+    target geometry; the first step carries a torsion through +-180 degrees and the following ones continue from there.
+    After EVERY step: the back-transformation of such a small exact step converges, the internal values are the requested
+    ones and the stored dihedrals are the continuous continuation of the previous ones."""
+    from autode.opt.coordinates import CartesianCoordinates, DIC
+    from autode.opt.coordinates.primitives import PrimitiveDihedralAngle
+    from autode.exceptions import CoordinateTransformFailed
+    fails = []
+    R = rep(spec, kind="sequence", bond=list(bond), phis=list(phis_deg))
+    try:
+        _, geoms = torsion_targets(spec, bond, phis_deg)
+        s0 = dict(spec); s0["coords"] = geoms[0].tolist(); s0["constraints"] = []
+        m, pic, x, q, B = build(s0)
+        cur = DIC.from_cartesian(x, pic)
+    except Exception:  # noqa
+        return fails
+    U = np.array(cur.U, copy=True)
+    dih = [i for i, pr in enumerate(pic) if isinstance(pr, PrimitiveDihedralAngle)]
+    for k, (ph, xt) in enumerate(zip(phis_deg[1:], geoms[1:]), start=1):
+        q_prev = np.array(cur._q, copy=True)
+        q_t = pic.close_to(CartesianCoordinates(xt), q_prev)
+        step = U.T @ (q_t - q_prev)
+        s_req = np.array(cur, copy=True) + step
+        cur.allow_unconverged_back_transform = False
+        try:
+            new = cur + step
+        except CoordinateTransformFailed:
+            fails.append((f"DIC.iadd|sequence-step-does-not-converge:{cls_key(spec)}",
+                          f"{spec['name']}: step {k} of the torsion sequence {phis_deg} deg (torsion -> {ph} deg, |ds| = {np.linalg.norm(step):.3f}) "
+                          f"is the exact internal displacement to an existing geometry but the back-transformation did not converge", R))
+            return fails
+        except Exception as e:  # noqa
+            fails.append((f"DIC.iadd|{type(e).__name__}:{cls_key(spec)}", f"{spec['name']}: sequence step {k} raised {type(e).__name__}", R))
+            return fails
+        qn = pic.close_to(new._x, q_prev)
+        err = float(np.abs(U.T @ qn - s_req).max())
+        if err > 1e-6 or np.abs(np.asarray(new) - s_req).max() > 1e-6:
+            fails.append((f"DIC.iadd|success-but-wrong-internals:{cls_key(spec)}",
+                          f"{spec['name']}: step {k} of the torsion sequence {phis_deg} deg reported success but max |s(x_new) - s_requested| = "
+                          f"{max(err, float(np.abs(np.asarray(new) - s_req).max())):.2e}", R))
+            return fails
+        jump = [i for i in dih if abs(new._q[i] - q_prev[i]) > math.pi or abs(new._q[i] - qn[i]) > 1e-8]
+        if jump:
+            i = jump[0]
+            fails.append((f"DIC.iadd|stored-dihedral-discontinuous:{cls_key(spec)}",
+                          f"{spec['name']}: step {k} of the torsion sequence {phis_deg} deg: stored {pic[i]!r} went from "
+                          f"{math.degrees(q_prev[i]):.2f} to {math.degrees(new._q[i]):.2f} deg (continuous value {math.degrees(qn[i]):.2f})", R))
+            return fails
+        cur = new
+    return fails
+
+
 # ---------------------------------------------------------------------------------------------
 # clear_tensors machine on the implementation
 # ---------------------------------------------------------------------------------------------
@@ -1086,6 +1189,43 @@ def impl_oracles(ctx, full):
                         sd = int(rs.randint(0, 10 ** 6))
                         record(oracle_pullback(s, sd, stationary), "impl-pullback", ck)
                         ctx.count("impl-pullback", ck + (stationary,), nontrivial=nat >= 3)
+    # exactly linear molecules in all axis-aligned (and generic) orientations x both atom orders
+    systems = [("CO2(C,O,O)", ["C", "O", "O"], [0.0, 1.16, -1.16]), ("CO2(O,C,O)", ["O", "C", "O"], [-1.16, 0.0, 1.16]),
+               ("OCS(O,C,S)", ["O", "C", "S"], [-1.16, 0.0, 1.56]), ("OCS(S,C,O)", ["S", "C", "O"], [-1.56, 0.0, 1.16]),
+               ("N2O(N,N,O)", ["N", "N", "O"], [-1.13, 0.0, 1.19]), ("N2O(O,N,N)", ["O", "N", "N"], [-1.19, 0.0, 1.13]),
+               ("HCN(H,C,N)", ["H", "C", "N"], [-1.064, 0.0, 1.156]), ("HCCH", ["H", "C", "C", "H"], [-1.66, -0.6, 0.6, 1.66])]
+    if full:
+        systems += [("CS2(C,S,S)", ["C", "S", "S"], [0.0, -1.55, 1.55]), ("NCCN", ["N", "C", "C", "N"], [-1.85, -0.69, 0.69, 1.85]),
+                    ("HCN(N,C,H)", ["N", "C", "H"], [-1.156, 0.0, 1.064])]
+    dirs = {"+x": (1, 0, 0), "-x": (-1, 0, 0), "+y": (0, 1, 0), "-y": (0, -1, 0), "+z": (0, 0, 1), "-z": (0, 0, -1),
+            "gen1": (0.3, -0.5, 0.81), "gen2": (-0.62, 0.2, -0.4)}
+    for sname, sym, pos in systems:
+        for dname, dvec in dirs.items():
+            dv = np.array(dvec, dtype=float); dv /= np.linalg.norm(dv)
+            spec = {"name": f"{sname}@{dname}", "cls": "linear-HX" if "H" in sym and sym != ["H", "C", "C", "H"] else "linear",
+                    "symbols": sym, "coords": [(p * dv).tolist() for p in pos], "charge": 0, "bonds": None, "constraints": []}
+            fs, info = oracle_primitives(spec)
+            record(fs, "impl-linear-orientation", (sname, dname))
+            ctx.count("impl-linear-orientation", (sname, dname), sample={"molecule": spec["name"], "n_dic": info.get("n_dic")})
+            ctx.hist("impl-linear-orientation", dname)
+            if "n_dic" in info and (full or dname in ("-x", "+y", "-z", "gen1")):
+                fs2, ok = oracle_step(spec, rs.normal(size=info["n_dic"]).round(4).tolist(), 0.05)
+                record(fs2, "impl-linear-orientation", (sname, dname, "step"))
+                ctx.count("impl-linear-orientation", (sname, dname, "step"))
+    # sequences of consecutive steps through +-180 degrees
+    seqs = [(172.0, 186.0, 189.0, 187.0, 175.0), (-172.0, -186.0, -189.0, -187.0, -175.0)]
+    if full:
+        seqs += [(160.0, 200.0, 230.0, 200.0, 160.0), (175.0, 181.0, 179.0, 183.0, 178.0)]
+    seq_specs = [({"name": "H2O2-model", "cls": "chain", "symbols": ["O", "O", "H", "H"], "coords": h2o2_geom(172.0).tolist(),
+                   "charge": 0, "bonds": None, "constraints": []}, (0, 1))]
+    for smi in (("OO", "CC") if not full else ("OO", "CC", "CCO", "CCCC")):
+        s_, p_, b_ = rdkit_geom(smi)
+        bond = (1, 2) if smi == "CCCC" else (0, 1)
+        seq_specs.append(({"name": smi, "cls": "chain", "symbols": s_, "coords": p_, "charge": 0, "bonds": b_, "constraints": []}, bond))
+    for spec, bond in seq_specs:
+        for phis in (seqs if (full or spec["name"] != "CC") else seqs[:1]):
+            record(oracle_step_sequence(spec, bond, phis), "impl-step-sequence", (spec["name"], phis))
+            ctx.count("impl-step-sequence", (spec["name"], phis), sample={"molecule": spec["name"], "torsions_deg": list(phis)})
     # dihedral continuity through +-180 degrees (and the winding beyond the code's range)
     for smi, bond in DIHEDRAL_CASES[:None if full else 2]:
         s, p, b = rdkit_geom(smi)
@@ -1194,6 +1334,8 @@ def replay(ctx, obj):
         fs = oracle_dihedral(spec, tuple(r["bond"]), r["dphi"], r["turns"])
     elif kind == "dihedral-step":
         fs = oracle_dihedral_step(spec, tuple(r["bond"]), r["start_deg"], r["dq"])
+    elif kind == "sequence":
+        fs = oracle_step_sequence(spec, tuple(r["bond"]), r["phis"])
     elif kind == "stale":
         fs = oracle_stale(r["coords"], r["ops"])
     elif kind == "machine":
